@@ -123,6 +123,33 @@ func (c *Client) Send(seq uint32, dest int, fill int) error {
 	return err
 }
 
+// Burst packs one datagram per entry of dests first and then writes them back to back, so that they
+// reach the relay faster than it forwards them (queues and sendmmsg batches form).
+func (c *Client) Burst(dests []int, fill int) {
+	pkts := make([][]byte, 0, len(dests))
+	c.mu.Lock()
+	idx := len(c.socks) - 1
+	s := c.socks[idx]
+	c.mu.Unlock()
+	for _, dest := range dests {
+		seq := c.NextSeq()
+		tag := Tag{Kind: KindRequest, Scenario: c.world.Scenario, Session: c.ID, Seq: seq, Target: uint16(dest), Responder: NoResponder, Fill: uint16(fill)}
+		pkt, err := c.Codec.Pack(c.world.DestAddr(dest), EncodePayload(nil, tag))
+		if err != nil {
+			continue
+		}
+		c.mu.Lock()
+		c.sentOn[seq] = idx
+		c.sent[seq] = [2]int{dest, fill}
+		c.Sent++
+		c.mu.Unlock()
+		pkts = append(pkts, pkt)
+	}
+	for _, pkt := range pkts {
+		s.WriteToUDPAddrPort(pkt, c.Server)
+	}
+}
+
 // SendRaw emits arbitrary bytes from the current socket (garbage from a live session's address).
 func (c *Client) SendRaw(b []byte) error {
 	c.mu.Lock()
